@@ -812,8 +812,37 @@ func genScenario(r *vh.Rand, family string, thorough bool) *Case {
 			}
 		}
 	}
+	// request encodings: the same logical query (an interior node of the first
+	// target's data, origin first) as library clients whose raw SubscribeRequest
+	// spells prefix and path in the deprecated `element` strings, and as a CLI
+	// query that every proto style repeats in every encoding (cliStyles)
+	var encQuery []string
+	for _, o := range c.Ops {
+		if o.T == first && o.N != nil && len(o.N.Updates) > 0 && o.N.Prefix != nil && o.N.Prefix.Origin != "" && o.N.Updates[0].Path.Origin == "" {
+			k := keyOf(o.N.Prefix, o.N.Updates[0].Path)
+			ok := len(k) >= 2
+			for _, x := range k {
+				if x == "" || strings.Contains(x, "*") || strings.Contains(x, "/") {
+					ok = false
+				}
+			}
+			if ok {
+				encQuery = append([]string{}, k[:1+r.Intn(len(k)-1)]...)
+				break
+			}
+		}
+	}
+	if encQuery != nil {
+		for _, e := range []string{"pre-el", "both-el", "mixed"}[r.Intn(3):] {
+			w := encodeQuery(e, first, encQuery)
+			c.Clients = append(c.Clients, ClientSpec{Prefix: w.Prefix, Path: w.Path})
+		}
+	}
 	// CLI queries
 	c.Cli = append(c.Cli, CliSpec{Target: first, Query: []string{}})
+	if encQuery != nil && family != "live" {
+		c.Cli = append(c.Cli, CliSpec{Target: first, Query: encQuery})
+	}
 	if family == "multi" {
 		c.Cli = append(c.Cli, CliSpec{Target: "unknown-device", Query: []string{}})
 	} else if len(names) > 1 {
